@@ -129,6 +129,24 @@ impl<'a> Driver<'a> {
         self.absorb(s);
         self.total.subspace(name, n, false);
     }
+    /// hidden-state phase: every generated input is evaluated three times in a row on the same thread
+    /// (a memo that is filled before validation answers differently the second time)
+    pub fn repeats<S>(&mut self, name: &str, strat: &S, seed: u64, phase: &str, n: u64, to_bytes: impl Fn(&S::Value) -> Vec<u8> + Sync + Send)
+    where
+        S: proptest::strategy::Strategy + Sync,
+        S::Value: Clone,
+    {
+        let f = self.f;
+        let s = run_strategy(strat, seed, phase, n, |v, st| {
+            let b = to_bytes(v);
+            f(&b, st, Count::No);
+            f(&b, st, Count::No);
+            f(&b, st, Count::No);
+            st.class("evaluated-three-times-in-a-row");
+        });
+        self.absorb(s);
+        self.total.subspace(name, n, false);
+    }
     pub fn list(&mut self, name: &str, items: &[Vec<u8>]) {
         let f = self.f;
         let spaces = &self.spaces;
@@ -238,6 +256,8 @@ pub fn langid_space(cfg: &Cfg, tag: &str, f: &ByteCheck<'_>) -> Stats {
     d.list("special words (root, POSIX names, grandfathered tags, withdrawn codes ...)", &strs(SPECIAL_WORDS));
     d.list("every single-byte substitution (256 values x every position) of 10 well-formed language ids", &byte_substitutions(SLIP_BASES_LANGID));
     d.after_neighbours("hidden state: G2 language ids, each evaluated right after every one-character neighbour (proptest)", &gen::s_langid_bytes(), cfg.seed, &format!("{tag}-nb"), n / 8, |b| b.clone());
+    d.repeats("hidden state: near-miss language ids, each evaluated three times in a row (proptest)", &gen::s_near_miss_langid(), cfg.seed, &format!("{tag}-rep"), n / 8, |b| b.clone());
+    d.repeats("hidden state: raw bytes, each evaluated three times in a row (proptest)", &gen::s_raw(), cfg.seed, &format!("{tag}-rep4"), n4 / 4, |b| b.clone());
     {
         // subtags whose length wraps to a legal one when narrowed to 8 bits, in every position
         let mut wraps: Vec<Vec<u8>> = vec![];
@@ -297,6 +317,8 @@ pub fn locale_space(cfg: &Cfg, tag: &str, f: &ByteCheck<'_>) -> Stats {
     d.list("special words (root, POSIX names, grandfathered tags, withdrawn codes ...)", &strs(SPECIAL_WORDS));
     d.list("every single-byte substitution (256 values x every position) of 16 well-formed ids / locales", &byte_substitutions(&bases));
     d.after_neighbours("hidden state: G2 locales, each evaluated right after every one-character neighbour (proptest)", &gen::s_ast(), cfg.seed, &format!("{tag}-nb"), n / 8, |a| a.render());
+    d.repeats("hidden state: near-miss locales, each evaluated three times in a row (proptest)", &gen::s_near_miss(), cfg.seed, &format!("{tag}-rep"), n / 8, |b| b.clone());
+    d.repeats("hidden state: raw bytes, each evaluated three times in a row (proptest)", &gen::s_raw(), cfg.seed, &format!("{tag}-rep4"), n4 / 4, |b| b.clone());
     let nl = cfg.pick(10_000, 200_000);
     d.strategy("very long variant lists (20-80, repeats certain) followed by extensions (proptest)", &gen::s_langid_many_variants(), cfg.seed, &format!("{tag}-manyvar"), nl, |b| {
         let mut v = b.clone();
